@@ -70,6 +70,10 @@ func execCwt(op string, a []string) string {
 		return "bad-op" // the library would read the wall clock
 	}
 	v, err := cwt.NewValidator(opts)
+	// the validator is configured at construction: whatever the caller does with its options object afterwards
+	// (another skew beyond the cap, other expectations, another clock) must not reach it
+	*opts = cwt.ValidatorOpts{ExpectedIssuer: "someone-else", ExpectedAudience: "elsewhere", AllowMissingExpiration: !opts.AllowMissingExpiration,
+		ExpectIssuedInThePast: !opts.ExpectIssuedInThePast, ClockSkew: 1000 * time.Hour, FixedNow: time.Unix(1, 0)}
 	mapAnswer := func() error {
 		cm := cwt.ClaimsMap{}
 		for i, label := range []int{iana.CWTClaimExp, iana.CWTClaimNbf, iana.CWTClaimIat, iana.CWTClaimIss, iana.CWTClaimAud} {
